@@ -1,5 +1,5 @@
 """Property -> rules registry.  Rules are added here as they are built; a property without rules is not claimed."""
-from .rules import determinism, panics, wiring, traversal, annot, shape, hygiene, enums, shrinking, fresh, sharing, codegen, abi, pmoves, labels, runtime
+from .rules import determinism, panics, wiring, traversal, annot, shape, hygiene, enums, shrinking, fresh, sharing, codegen, abi, pmoves, labels, runtime, typing as typing_rules
 
 
 def _thorough_only(rule):
@@ -12,6 +12,16 @@ def _thorough_only(rule):
 
 
 PROPS = {
+    "C15": {
+        "rules": [typing_rules.rule_zip, typing_rules.rule_dup, typing_rules.rule_nodup, typing_rules.rule_result, typing_rules.rule_clause_exits,
+                  traversal.rule_trav(["fun::typing::check::Check"]), annot.rule_annot_check, panics.rule_panic(("A",))],
+        "text": "Rejection discipline of the type checker, decided for every program: zips are length-guarded (R-ZIP), declarations are "
+                "inserted only after a duplicate check that returns Err (R-DUP), binder lists are checked for duplicates before use "
+                "(R-NODUP), no typing Result is dropped or defused and no look-up is defaulted (R-RESULT), the clause-matching and "
+                "arity diagnostics are reachable (R-EXITS), every subterm is checked and annotated (R-TRAV, R-ANNOT), and nothing "
+                "reachable from parsing/checking can panic (R-PANIC zone A).",
+        "assumptions": ["acceptance of every well-typed program and correctness of type equality itself are not decided"],
+    },
     "C20": {
         "rules": [runtime.rule_cint, runtime.rule_template, runtime.rule_ret, abi.rule_abi_args_only],
         "text": "Runtime contract decided on the C sources and the generator: (R-CINT) interval abstract interpretation of print_i64/"
